@@ -21,6 +21,7 @@ type k3spec struct {
 	name string // Coq name
 	from string // fragment (see k2spec)
 	to   string
+	m4   bool // a function of the fourth list (Gen/Kernels4.v)
 }
 
 // interfaces translated as sum types: qualified interface name -> the dynamic types (in constructor order)
@@ -79,6 +80,7 @@ type g3 struct {
 	legacy   map[string]*fsig // sigs of Gen/Kernels2.v
 	legDecl  map[string]*legacyInfo
 	decls    []string // Records / Inductives / setters, in order
+	declInfo []declInfo4 // parallel to decls (used by the fourth mode)
 	declSeen map[string]bool
 	absTypes []string
 	absVars  []absMeth
@@ -223,6 +225,9 @@ func abstractName3(t types.Type) string {
 		t = p.Elem()
 	}
 	if n, ok := t.(*types.Named); ok && n.Obj().Pkg() != nil {
+		if curMode4 && notAbstract4[qualName(n)] {
+			return ""
+		}
 		if abstract3[qualName(n)] && n.Obj().Pkg() != curPkg3 {
 			return n.Obj().Name()
 		}
@@ -249,6 +254,11 @@ func (c *m3) mtL(t types.Type, at ast.Node, lenient bool) mtype {
 	}
 	if isErrorType(t) {
 		return mtype{k: mErr}
+	}
+	if curMode4 {
+		if m, ok := c.mt4(t, at); ok {
+			return m
+		}
 	}
 	if n := abstractName3(t); n != "" {
 		c.g.needAbsType(n)
@@ -344,6 +354,11 @@ func (c *m3) declStruct(n *types.Named, st *types.Struct, at ast.Node) mtype {
 			fs = append(fs, fmt.Sprintf("%s_%s : %s", name, f.name, c.coqT(f.t)))
 		}
 		c.g.decls = append(c.g.decls, fmt.Sprintf("(* %s *)\nRecord %s := mk_%s { %s }.\n", qualName(n), name, name, strings.Join(fs, "; ")))
+		di := declInfo4{kind: "record", typ: name, ctors: []string{"mk_" + name}}
+		for _, f := range t.flds {
+			di.funcs = append(di.funcs, name+"_"+f.name)
+		}
+		c.g.declInfo = append(c.g.declInfo, di)
 	}
 	return t
 }
@@ -363,6 +378,7 @@ func (c *m3) setter(t mtype, field string) string {
 			}
 		}
 		c.g.decls = append(c.g.decls, fmt.Sprintf("Definition %s (r_ : %s) (v_ : %s) : %s := %s.\n", sname, t.name, c.coqT(ft), t.name, strings.Join(parts, " ")))
+		c.g.declInfo = append(c.g.declInfo, declInfo4{kind: "setter", funcs: []string{sname}})
 	}
 	return sname
 }
@@ -392,6 +408,14 @@ func (c *m3) declSum(n *types.Named, alts []string, at ast.Node) mtype {
 	}
 	c.g.sumAlts[name] = al
 	c.g.decls = append(c.g.decls, fmt.Sprintf("(* interface %s: its dynamic types *)\nInductive %s :=\n%s\n| %s_nil.\n", qualName(n), name, strings.Join(cs, "\n"), name))
+	{
+		di := declInfo4{kind: "sum", typ: name}
+		for _, a := range al {
+			di.ctors = append(di.ctors, a.ctor)
+		}
+		di.ctors = append(di.ctors, name+"_nil")
+		c.g.declInfo = append(c.g.declInfo, di)
+	}
 	return t
 }
 
@@ -452,6 +476,7 @@ func (g *g3) computeMut(specs []k3spec, decls map[string]*ast.FuncDecl, pk map[s
 			}
 			p := pk[k.pkg]
 			curPkg3 = p.tpkg
+			curMode4 = k.m4
 			var recvObj types.Object
 			if fd.Recv != nil && len(fd.Recv.List[0].Names) == 1 {
 				recvObj = p.info.Defs[fd.Recv.List[0].Names[0]]
@@ -629,6 +654,7 @@ func (c *m3) translate3() (out string, err error) {
 		c.fail(fn, "generic function")
 	}
 	curPkg3 = c.p.tpkg
+	curMode4 = c.spec.m4
 	c.sig = &fsig3{name: c.spec.name, key: k3key(c.spec)}
 	c.usedVars = map[string]bool{}
 	c.desugar(fn.Body)
@@ -748,6 +774,9 @@ func (c *m3) translate3() (out string, err error) {
 	c.numberSites()
 	c.computeErased()
 	c.aliasCheck()
+	if c.spec.m4 {
+		c.checkBig()
+	}
 	run := func(fallible bool) string {
 		c.sb.Reset()
 		c.pend = nil
